@@ -277,7 +277,9 @@ mod concurrent {
 
     pub fn permute<T: Send>(v: &mut [T]) {
         let n = v.len();
-        let num_batches = rayon::current_num_threads().next_power_of_two() * 2;
+        // there cannot be more batches than elements (both numbers are powers of two)
+        let num_batches =
+            core::cmp::min(rayon::current_num_threads().next_power_of_two() * 2, n);
         let batch_size = n / num_batches;
         rayon::scope(|s| {
             for batch_idx in 0..num_batches {
